@@ -89,6 +89,10 @@ def check_one(case, ctx, deep):
                         form = 'list'
                     except Exception:  # noqa: BLE001 - judged by the call below
                         pass
+                if len(labels) >= 2 and all(len(x) == 1 for x in labels):
+                    # a str is an iterable of one-character labels - also when their concatenation is a label itself
+                    got_s = ctx.call('context[](str)', q, context.__getitem__, ''.join(seq))
+                    ctx.check(got_s == want, 'context[](str)', q, lambda: f'context[{"".join(seq)!r}] = {got_s!r}, want {want!r}')
                 got2 = ctx.call('context[](form)', q, context.__getitem__, gen.as_form(form, seq))
                 ctx.check(got2 == want, 'context[](form)', q, lambda: f'context[{seq}] ({form}) = {got2!r}, want {want!r}')
                 # independent of the closure formula: formal concept, contains query, least
@@ -132,7 +136,7 @@ def check_one(case, ctx, deep):
 
 
 def plan(tier, seed):
-    return tablecheck.plan(tier, seed, wide=True, quick_cells=11, thorough_cells=16, thorough_shapes=(), thorough_multisets=(),
+    return tablecheck.plan(tier, seed, wide=True, odd=True, quick_cells=11, thorough_cells=16, thorough_shapes=(), thorough_multisets=(),
                            hyp_quick=(12, 120), hyp_thorough=(16, 1200), profiles=('small', (8, 8)))
 
 
